@@ -14,8 +14,58 @@ RULE = ("every configuration of the catalog (default, minimum sizes, non-square,
         "or state of an episode (reset-only records are not counted)")
 
 
+def make_path(res, seed):
+    """The time limit a caller passes through `jumanji.make(id, time_limit=k)` must be the one the environment uses -- also for ids
+    that are REGISTERED with a default time_limit (the registered keyword arguments are overridden by the caller's).  Construction only,
+    plus one rollout to the limit on the id registered with a time_limit."""
+    import jax
+    import jax.numpy as jnp
+    import jumanji
+    from jumanji import registration as reg
+    for env_id, spec in sorted(reg._REGISTRY.items()):
+        if env_id.startswith("Sokoban"):          # needs its dataset (absent offline)
+            continue
+        import inspect
+        try:
+            cls = reg.load(spec.entry_point)
+            takes = "time_limit" in inspect.signature(cls.__init__).parameters
+        except Exception:
+            takes = False
+        if not takes:
+            continue
+        for k in (3, 7):
+            res.evaluations += 1
+            res.distinct.add(("make-path", env_id, k))
+            try:
+                env = jumanji.make(env_id, time_limit=k)
+            except Exception as e:
+                res.fail("jumanji.make(%r, time_limit=%d) raised %s" % (env_id, k, type(e).__name__), dict(op="make-limit", env=env_id), dict(k=k, error=str(e)[:200]))
+                continue
+            if int(env.time_limit) != k:
+                res.fail("jumanji.make(id, time_limit=k) builds an environment whose time_limit is not k (registered default kept?)",
+                         dict(op="make-limit", env=env_id), dict(k=k, got=int(env.time_limit), registered_kwargs=sorted(spec.kwargs)))
+            elif "time_limit" in spec.kwargs and k == 3:
+                # run to the limit: LAST no later than step k
+                s, ts = jax.jit(env.reset)(jax.random.PRNGKey(seed))
+                step = jax.jit(env.step)
+                last_at = None
+                for t in range(1, k + 2):
+                    s, ts = step(s, env.action_spec.generate_value())
+                    if int(ts.step_type) == 2:
+                        last_at = t
+                        break
+                if last_at is None or last_at > k:
+                    res.fail("episode built through make(id, time_limit=k) does not end by step k", dict(op="make-limit-rollout", env=env_id), dict(k=k, last_at=last_at))
+
+
 def analyze(tier, seed, use_cache=True):
-    return envkit.collect("C11", tier, seed, use_cache)
+    res = envkit.collect("C11", tier, seed, use_cache)
+    try:
+        make_path(res, seed)
+    except Exception:
+        import traceback
+        res.fail("make-path analysis raised", dict(op="harness-exception", env="registration"), dict(trace=traceback.format_exc()[-1500:]))
+    return res
 
 
 def replay(path):
